@@ -26,6 +26,7 @@ from .scenariomanager import ScenarioManagerHybrid
 from .scenariorunners import HybridRunner
 from .scenariorunners import SdRunner
 from .util.didyoumean import didyoumean
+from .util import floating_point as fp
 from .visualizations import visualizer
 
 
@@ -599,8 +600,9 @@ class bptk():
         self.session_state["settings_log"][step] = settings
         self.session_state["results_log"][step] = simulation_results
 
-        # move session step forward
-        self.session_state["step"]=step+dt
+        # move session step forward - on the same decimal grid that run_scenarios uses, a bare step+dt drifts for dt such as 0.1
+        starttime = self.session_state["starttime"]
+        self.session_state["step"]=fp.normalize(step+dt, base=dt, offset=starttime, precision=max(fp.scale(starttime), fp.scale(dt)))
 
         return flat_results if flat else simulation_results
 
